@@ -76,16 +76,43 @@ def _pow2_factor(t):
 
 
 def _disjoint_sum(space, av, bv):
-    """a|b == a^b == a+b when 0 <= x < 2^s and y is a non-negative multiple of 2^s.
-    s is read off y's syntax; the bounds are *proved* with the solver (never assumed)."""
+    """a|b == a^b == a+b when the operands have no common 1-bit.  Tested (never assumed) in the
+    form: y's 1-bits lie in [s, s+k) -- s read off y's syntax, k the smallest of a few widths
+    with y < 2^(s+k) *proved* by the solver -- and x has zeros there, also proved."""
     for x, y in ((av, bv), (bv, av)):
         s = _pow2_factor(y)
-        if 0 < s < 64:
-            try:
-                if not space.is_possible(z3.Or(x < 0, x >= 2**s, y < 0)):
-                    return x + y
-            except Exception:
-                pass
+        if s >= 64:
+            continue
+        try:
+            if space.is_possible(z3.Or(x < 0, y < 0)):
+                return None
+            for k in (1, 2, 3, 4, 8, 16, 32):
+                if s + k > 64:
+                    break
+                if not space.is_possible(y >= 2 ** (s + k)):
+                    if not space.is_possible(((x / (2**s)) % (2**k)) != 0):
+                        return x + y
+                    break
+        except Exception:
+            pass
+    return None
+
+
+def _sparse_const(space, op, xv, c):
+    """x op c for a non-negative symbolic x and a non-negative constant c with few 1-bits:
+    only the digits of x at c's bit positions are needed (digit_i = (x div 2^i) mod 2)."""
+    if c < 0 or bin(c).count("1") > 12:
+        return None
+    if space.is_possible(xv < 0):
+        return None
+    pos = [i for i in range(c.bit_length()) if c >> i & 1]
+    digs = [(xv / (2**i)) % 2 for i in pos]
+    if op is ops.or_:
+        return xv + z3.Sum([(1 - d) * (2**i) for i, d in zip(pos, digs)])
+    if op is ops.xor:
+        return xv + z3.Sum([(1 - 2 * d) * (2**i) for i, d in zip(pos, digs)])
+    if op is ops.and_:
+        return z3.Sum([d * (2**i) for i, d in zip(pos, digs)])
     return None
 
 
@@ -106,6 +133,10 @@ def _bitop(op, a: Integral, b: Integral):
         r = _disjoint_sum(space, av, bv)
         if r is not None:
             return bl.SymbolicInt(r)
+        if not (asym and bsym):
+            r = _sparse_const(space, op, av if asym else bv, int(b) if asym else int(a))
+            if r is not None:
+                return bl.SymbolicInt(r)
         for width, signed in ((16, False), (32, False), (64, True)):
             if signed:
                 lim = 2 ** (width - 1)
@@ -146,6 +177,9 @@ def _bitand(op, a: Integral, b: Integral):
                         return bl.SymbolicInt(((a.var / (2**s_)) % kmod) * (2**s_))
                     if s_ == 0:
                         return bl.SymbolicInt(b - ((-a.var - 1) % kmod))
+            r = _sparse_const(space, ops.and_, a.var, b)
+            if r is not None:
+                return bl.SymbolicInt(r)
             bv = z3.IntVal(b)
         else:
             bv = b.var
@@ -215,3 +249,107 @@ def _solver_is_sat(solver, *exprs) -> bool:
 
 
 _ss.solver_is_sat = _solver_is_sat
+
+# --- `int in <symbolic bytes>`: stock CrossHair realises the whole byte string (data property);
+# compare element by element instead (the readers use `0 in data` to find the C-string terminator).
+_orig_bytes_contains = bl.BytesLike.__contains__
+
+
+def _bytes_contains(self, item):
+    if isinstance(item, Integral):
+        for b in self._ch_codepoints:
+            if b == item:
+                return True
+        return False
+    return _orig_bytes_contains(self, item)
+
+
+bl.BytesLike.__contains__ = _bytes_contains
+
+# --- pack/unpack memo: int.from_bytes(x.to_bytes(n, order, signed=s), order, signed=s) is x.
+# Stock CrossHair rebuilds sum(((x div 256^i) mod 256) * 256^i), which z3 can prove equal to x but
+# which makes every later operation on a loaded value a tower of div/mod terms.  The memo is keyed
+# on the identity of the byte terms, the byte order and the signedness, so a reader that unpacks
+# with a different width or signedness than the writer packed gets no hit and is modelled in full.
+_orig_to_bytes = bl.SymbolicInt.to_bytes
+_orig_from_bytes = _core._PATCH_REGISTRATIONS.get(int.from_bytes)
+MEMO_STATS = {"hits": 0}
+
+
+def _byte_key(seq):
+    key = []
+    for x in seq:
+        if isinstance(x, bl.SymbolicInt):
+            key.append(x.var.get_id())
+        elif isinstance(x, int):
+            key.append(("c", int(x)))
+        else:
+            return None
+    return tuple(key)
+
+
+def _memo(space):
+    m = getattr(space, "_vf_pack_memo", None)
+    if m is None:
+        m = space._vf_pack_memo = {}
+    return m
+
+
+def _to_bytes(self, *a, **kw):
+    res = _orig_to_bytes(self, *a, **kw)
+    with NoTracing():
+        try:
+            byteorder = a[1] if len(a) > 1 else kw.get("byteorder", "big")
+            signed = bool(kw.get("signed", False))
+            inner = getattr(res, "inner", None)
+            if inner is not None and isinstance(self, bl.SymbolicInt) and isinstance(byteorder, str):
+                key = _byte_key(list(inner))
+                if key is not None:
+                    _memo(context_statespace())[(key, byteorder, signed)] = self
+        except Exception:
+            pass
+    return res
+
+
+def _from_bytes(b, *a, **kw):
+    hit = None
+    with NoTracing():
+        try:
+            byteorder = a[0] if a else kw.get("byteorder", "big")
+            signed = kw.get("signed", False)
+            inner = getattr(b, "inner", None)
+            if inner is not None and isinstance(byteorder, str) and isinstance(signed, bool):
+                key = _byte_key(list(inner))
+                if key is not None:
+                    hit = _memo(context_statespace()).get((key, byteorder, signed))
+        except Exception:
+            hit = None
+        if hit is not None:
+            MEMO_STATS["hits"] += 1
+    if hit is not None:
+        return hit
+    return _orig_from_bytes(b, *a, **kw)
+
+
+bl.SymbolicInt.to_bytes = _to_bytes
+if _orig_from_bytes is not None:
+    _core._PATCH_REGISTRATIONS[int.from_bytes] = _from_bytes
+
+# --- bytes.ljust on symbolic bytes: stock CrossHair realises the value; pad symbolically instead
+_orig_bytes_ljust = bl.BytesLike.ljust
+
+
+def _bytes_ljust(self, width, fillchar=b" "):
+    with NoTracing():
+        ok = isinstance(width, int) and isinstance(fillchar, (bytes, bytearray)) and len(fillchar) == 1
+        cps = self._ch_codepoints
+        ok = ok and isinstance(cps, (list, tuple))
+        if ok:
+            n = len(cps)
+            if width <= n:
+                return self._ch_make(list(cps))
+            return self._ch_make(list(cps) + [fillchar[0]] * (width - n))
+    return _orig_bytes_ljust(self, width, fillchar)
+
+
+bl.BytesLike.ljust = _bytes_ljust
